@@ -128,7 +128,7 @@ func runPair(c *ctx, id string, cfg runCfg, oldS, newS []Stmt, style sqlStyle) {
 func runRoutes(c *ctx, id string, cfg runCfg, s *gSchema) {
 	routes := []string{"canonical", "grouped", "per-statement", "random-spelling", "own-dump"}
 	if cfg.dialect == "mysql" {
-		routes = append(routes, "explicit-using-btree", "inline-keys")
+		routes = append(routes, "explicit-using-btree", "inline-keys", "table-level-pk")
 	}
 	loadRoute := func(r string) (*sqlize.Sqlize, string) {
 		z := cfg.newSqlize()
@@ -174,6 +174,9 @@ func runRoutes(c *ctx, id string, cfg runCfg, s *gSchema) {
 					ss[i].Using = "BTREE"
 				}
 			}
+			e = load(z, cfg, plain, ss)
+		case "table-level-pk":
+			ss, _ := tableLevelPk(s.scriptGrouped())
 			e = load(z, cfg, plain, ss)
 		case "inline-keys":
 			e = guard(func() string {
